@@ -529,10 +529,14 @@ impl Ctx {
         let assumed_txs = if single_exact { 0 } else { ceil_div(split.len() as u128, PER_TX) as usize };
         let costs_as_assumed = !split.is_empty()
             && calls.first().is_some_and(|c0| c0.answer == Some(assumed_txs) && c0.args.iter().map(|a| *a as u128).eq(split.iter().map(|c| c + buffer)));
-        if matches!(case.kind, Kind::Assumed) && !split.is_empty() && !costs_as_assumed {
-            self.r.inconclusive("harness: the assumed-cost oracle was not asked about the full split first");
+        // The `Assumed` oracle answers the optimistic count for WHATEVER list it is asked about, so
+        // with it preparation costs what the planner assumed by construction - also when the planner
+        // (wrongly) starts from something else than the full canonical split for the caller's cap.
+        let always_optimistic = matches!(case.kind, Kind::Assumed) && !split.is_empty();
+        if always_optimistic && !costs_as_assumed {
+            self.r.count("assumed_oracle_first_query_differs_from_canonical_split", 1);
         }
-        if (costs_as_assumed || split.is_empty()) && cv.len() < cap {
+        if (costs_as_assumed || always_optimistic || split.is_empty()) && cv.len() < cap {
             self.r.count("residual_bound_checked", 1);
             if !matches!(case.kind, Kind::Assumed) {
                 self.r.count("residual_bound_checked_other_oracles", 1);
@@ -660,7 +664,7 @@ const FEE_PAIRS: &[(u64, u64)] = &[
     (1_000_000_000_000, 1_000_000_000_000), // 10 000 ZEC each
     (MAX_MONEY as u64, MAX_MONEY as u64),
 ];
-const CAPS: &[usize] = &[1, 2, 14, 15, 16, 29, 50, 64];
+const CAPS: &[usize] = &[1, 2, 14, 15, 16, 29, 50, 51, 64];
 const COUNTS: &[usize] = &[0, 1, 2];
 
 fn lattice_kinds(salt: u64) -> Vec<Kind> {
